@@ -214,8 +214,20 @@ class EvolveAppTask(BaseEvolutionTask):
         if migrating:
             # If we have any applied migration names we wanted to record, do it
             # before we begin any migrations.
+            #
+            # The initial migrations about to be run in the pre-migration
+            # stage are only treated as applied for planning purposes.
+            # Running them is what records them.
             applied_migrations = \
                 state['migration_executor'].loader.extra_applied_migrations
+
+            pre_migration_targets = state.get('pre_migration_targets')
+
+            if applied_migrations and pre_migration_targets:
+                pre_migrations = MigrationList()
+                pre_migrations.add_migration_targets(pre_migration_targets)
+
+                applied_migrations = applied_migrations - pre_migrations
 
             if applied_migrations:
                 record_applied_migrations(connection=evolver.connection,
